@@ -222,7 +222,7 @@ pub assume_specification [crate::vm::environment::EnvironmentMap::new] () -> (r:
         'impl Lambda::new': {'props': P, 'ensures': [(P, 'r.bc@.len() == 0')]},
         'impl Lambda::set_top_level': {'props': P, 'ensures': [(P, 'final(self).bc == old(self).bc')]},
         # declared although the compiler does not call it yet (a compiler that did would be decided, not refused)
-        'impl Lambda::is_top_level': {'props': P, 'ensures': [(P, 'r == self.top_level')]},
+        'impl Lambda::is_top_level': {'props': ['C06'], 'ensures': [(['C06'], 'r == self.top_level')]},
         'impl Lambda::argc': {'props': P, 'body_start': 'proof { axiom_vec_len(&self.args); }', 'ensures': [(P, 'r == self.args@.len()'), (P, 'r <= isize::MAX')]},
     },
 }, {
